@@ -56,13 +56,30 @@ def write_map(fmt, addrs, fname):
         return
     harness.write_file(fname, data)
 
-def structured_program(rng, org):
+def structured_program(rng, org, rst=False):
     """Code with call structure for real traces: a main routine that calls hot routines, makes conditional calls/jumps
     that are NOT taken to cold (unexecuted but referenced) regions, some of which fall through into the next hot
     routine; hot routines sit back to back (RET followed directly by the next executed routine)."""
     filler = [0x3C, 0x3D, 0x04, 0x05, 0x23, 0x2B, 0x00, 0xA7, 0x87, 0x47, 0x4F]
     nhot = rng.randint(2, 5)
-    hot = [[rng.choice(filler) for _ in range(rng.randint(1, 6))] + [0xC9] for _ in range(nhot)]
+    hot_ins = []
+    for _ in range(nhot):
+        ins = []
+        for _ in range(rng.randint(1, 6)):
+            k = rng.random()
+            if rst and k < 0.3:
+                # RST 8 with its argument byte (the default RST handler of -r: '8:B'); the argument is often the opcode
+                # of a multi-byte or block-ending instruction
+                ins.append([0xCF, rng.choice([0x18, 0xC3, 0xC9, 0xE9, 0x10, 0x21, 0xCD, 0x00, 0xFF, rng.randrange(256)])])
+            elif k < 0.45:
+                ins.append([0x01, rng.randrange(256), rng.randrange(256)])      # LD BC,nn
+            elif k < 0.55:
+                ins.append([0x3E, rng.randrange(256)])                          # LD A,n
+            else:
+                ins.append([rng.choice(filler)])
+        ins.append([0xC9])
+        hot_ins.append(ins)
+    hot = [[b for i in ins for b in i] for ins in hot_ins]
     cold = []
     for k in range(nhot):
         if rng.random() < 0.7:
@@ -102,7 +119,26 @@ def structured_program(rng, org):
             out += cold[k]
         out += hot[k]
     tail = [rng.randrange(256) for _ in range(rng.randint(0, 12))]
-    return out + tail, main_len
+    # the addresses an execution visits when every call is made and RST 8 returns behind its argument byte
+    walk = []
+    a = org
+    for k in range(nhot):
+        if cold[k] is not None:
+            walk += [a, a + 1]
+            a += 4
+        if indirect[k]:
+            walk += [a, a + 3]
+            a += 6
+        else:
+            walk.append(a)
+            a += 3
+    walk += [a, a + 1]
+    for k in range(nhot):
+        a = hot_at[k]
+        for i in hot_ins[k]:
+            walk.append(a)
+            a += len(i)
+    return out + tail, main_len, sorted(walk)
 
 
 def make_case(rng):
@@ -111,8 +147,11 @@ def make_case(rng):
     org = 65536 - size if top else rng.choice([16384, 23296, 32768, 49152, rng.randrange(16384, 65536 - size)])
     data = memgen.gen_bytes(rng, size, org=org)
     structured = rng.random() < 0.2
+    walk = None
+    with_rst = False
     if structured:
-        prog, main_len = structured_program(rng, org)
+        with_rst = rng.random() < 0.35
+        prog, main_len, walk = structured_program(rng, org, with_rst)
         if len(prog) <= 65536 - org:
             data = prog
             size = len(prog)
@@ -132,7 +171,7 @@ def make_case(rng):
     opts = []
     if rng.random() < 0.4:
         opts.append('-C')
-    rst = rng.random() < 0.3
+    rst = rng.random() < 0.3 or (structured and with_rst)
     if rst:
         opts.append('-r')
     r = rng.random()
@@ -147,7 +186,11 @@ def make_case(rng):
     if rng.random() < 0.15:
         opts += ['-I', 'TextChars=%s' % rng.choice(['abcdefghijklmnopqrstuvwxyz', 'ABC ', '0123456789'])]
     mapkind = 'trace' if structured and rng.random() < 0.8 else rng.choice(['none', 'none', 'trace', 'trace', 'arbitrary'])
-    return {'image': bytes(data), 'org': org, 'start': start, 'end': end, 'entry': entry, 'opts': opts, 'rst': rst, 'mapkind': mapkind,
+    if structured and (with_rst or rng.random() < 0.2):
+        mapkind = 'walk'       # the map of an execution in which every call is made (with RST 8: returning behind the argument byte)
+    else:
+        walk = None
+    return {'image': bytes(data), 'org': org, 'start': start, 'end': end, 'entry': entry, 'walk': walk, 'opts': opts, 'rst': rst, 'mapkind': mapkind,
             'mapfmt': rng.choice(MAP_FORMATS), 'dict': rng.random() < 0.1}
 
 class DecodeCounter:
@@ -210,6 +253,9 @@ def check_case(shard, c, rp):
             shard.inc('observed:real_trace_maps')
         else:
             c = dict(c, mapkind='none')
+    elif c['mapkind'] == 'walk':
+        addrs = [a for a in c['walk'] if start <= a < end]
+        shard.inc('observed:walk_maps')
     elif c['mapkind'] == 'arbitrary':
         rr = shard.rng('map', harness.h64(c['image']), start)
         n = rr.choice([1, 3, 10, 50])
@@ -407,7 +453,7 @@ def run(shard, spec):
     for case in range(spec['shard'], n, spec['of']):
         rng = shard.rng('case', case)
         c = make_case(rng)
-        rp = {'image': harness.b64(c['image']), 'org': c['org'], 'start': c['start'], 'end': c['end'], 'opts': c['opts'], 'mapkind': c['mapkind'], 'mapfmt': c['mapfmt'], 'dict': c['dict'], 'rst': c['rst'], 'entry': c.get('entry')}
+        rp = {'image': harness.b64(c['image']), 'org': c['org'], 'start': c['start'], 'end': c['end'], 'opts': c['opts'], 'mapkind': c['mapkind'], 'mapfmt': c['mapfmt'], 'dict': c['dict'], 'rst': c['rst'], 'entry': c.get('entry'), 'walk': c.get('walk')}
         res = check_case(shard, c, rp)
         shard.case((harness.h64(c['image']), c['org'], c['start'], c['end'], c['opts'], c['mapkind'], c['mapfmt']), bool(res) and (res >= 3 or c['mapkind'] != 'none'),
                    sample={'org': c['org'], 'range': [c['start'], c['end']], 'opts': c['opts'], 'map': c['mapkind'] + '/' + c['mapfmt'], 'blocks': res} if case < 3 else None)
